@@ -356,6 +356,13 @@ theorem stepLdel_ok (g : G) (i : Nat) (t : Txn) (k : Nat) : StepOk g (stepLdel g
 theorem notWindow_pc {t : Txn} {pc : Pc} (h : t.pc = pc) (h1 : pc ≠ .check) (h2 : pc ≠ .install) : ¬ InWindow t := by
   rintro (h' | h') <;> rw [h] at h' <;> contradiction
 
+theorem keepsD_commit_finishOk (g : G) (i : Nat) (t : Txn) :
+    let g' := finishOk (commitPoint g i t []) i t
+    g'.db = g.db ∧ g'.pver = g.pver ∧ g'.pageOf = g.pageOf ∧ (∀ k, k ≠ i → g'.txns k = g.txns k) ∧
+    g'.hist = g.hist ++ [{ txn := i, reads := t.reads, writes := [] }] := by
+  have k := finishOk_keeps (commitPoint g i t []) i t
+  exact ⟨k.db, k.pver, k.pageOf, k.others, k.hist⟩
+
 theorem stepPlock_ok (g : G) (i : Nat) (t : Txn) (hpc : t.pc = .plock) : StepOk g (stepPlock g i t) i t := by
   unfold stepPlock; simp only
   split
@@ -375,16 +382,18 @@ theorem stepPlock_ok (g : G) (i : Nat) (t : Txn) (hpc : t.pc = .plock) : StepOk 
               · exact notWindow_pc d (by decide) (by decide)
               · exact notWindow_pc d (by decide) (by decide))
         exact this
-    · refine stepOk_of_keeps ((keeps_plock g i _).trans (keeps_setTxn _ _ _)) (Or.inr (Or.inr (Or.inl ?_)))
-      rw [setTxn_self]; exact plain_of g rfl rfl (by rintro (h | h) <;> cases h)
+    · split
+      · rename_i hemp
+        obtain ⟨h1, h2, h3, h4, h5⟩ := keepsD_commit_finishOk { g with plock := fun p => if t.lockKeys.contains p then some i else g.plock p } i t
+        refine ⟨h1, h2, h3, h4, self_finishOk g _ i t _, Or.inr ⟨_, h5, rfl, Or.inl ?_⟩⟩
+        have : t.tracked = [] := by
+          have := (Bool.and_eq_true _ _).mp hemp
+          exact List.isEmpty_iff.mp this.1
+        show Txn.reads t = []
+        unfold Txn.reads; rw [this]; rfl
+      · refine stepOk_of_keeps ((keeps_plock g i _).trans (keeps_setTxn _ _ _)) (Or.inr (Or.inr (Or.inl ?_)))
+        rw [setTxn_self]; exact plain_of g rfl rfl (by rintro (h | h) <;> cases h)
 
-
-theorem keepsD_commit_finishOk (g : G) (i : Nat) (t : Txn) :
-    let g' := finishOk (commitPoint g i t []) i t
-    g'.db = g.db ∧ g'.pver = g.pver ∧ g'.pageOf = g.pageOf ∧ (∀ k, k ≠ i → g'.txns k = g.txns k) ∧
-    g'.hist = g.hist ++ [{ txn := i, reads := t.reads, writes := [] }] := by
-  have k := finishOk_keeps (commitPoint g i t []) i t
-  exact ⟨k.db, k.pver, k.pageOf, k.others, k.hist⟩
 
 theorem stepCheck_ok (g : G) (i : Nat) (t : Txn) (hpc : t.pc = .check) : StepOk g (stepCheck g i t) i t := by
   unfold stepCheck; simp only
